@@ -75,12 +75,21 @@ def specExportations (paths : List Name) (imps : List (Name × List Name)) : Lis
 def specIndex (occ : List (Name × Name)) : List (Name × List Name) :=
   (sortU (occ.map (·.1))).map fun k => (k, (occ.filter fun o => decide (o.1 = k)).map (·.2))
 
+/-- the labels index: every program once -/
+def specIndexOnce (occ : List (Name × Name)) : List (Name × List Name) :=
+  (specIndex occ).map fun e => (e.1, (dedup e.2.reverse).reverse)
+
 /-- last binding of each name, at the position of its first occurrence -/
 def specPrepared (ls : List (Name × List Span3)) : List (Name × List PoorSpan) :=
   (dedup (ls.map (·.1)).reverse).reverse.map fun n =>
     (n, match (ls.reverse.find? fun l => decide (l.1 = n)) with
         | some l => preparedSpans l.2
         | none => [])
+
+/-- every name once (first-occurrence order), with the sorted distinct spans of ALL the entries of that name -/
+def specPreparedUnion (ls : List (Name × List Span3)) : List (Name × List PoorSpan) :=
+  (dedup (ls.map (·.1)).reverse).reverse.map fun n =>
+    (n, preparedSpans ((ls.filter fun l => decide (l.1 = n)).flatMap (·.2)))
 
 def specDb (toTaxa : Name → List Label → List Taxon) (progs : List Prog) : Option Db :=
   let lab := labelled progs
@@ -92,9 +101,9 @@ def specDb (toTaxa : Name → List Label → List Taxon) (progs : List Prog) : O
       programs := progs.zip lab |>.map fun (p, l) =>
         let taxa := toTaxa l.1 l.2
         (p.path, { timestamp := p.timestamp, source := p.source,
-                   labels := specPrepared (l.2.map fun x => (x.name, x.spans)),
+                   labels := specPreparedUnion (l.2.map fun x => (x.name, x.spans)),
                    taxa := specPrepared (taxa.map fun x => (x.name, x.spans)) })
-      labels := specIndex (labelOcc lab)
+      labels := specIndexOnce (labelOcc lab)
       taxa := specIndex (taxonOcc (taxaed toTaxa progs))
       importations := imps
       exportations := specExportations paths imps }
